@@ -20,6 +20,15 @@ CHECKS = {
         "Work inside Cython/C code is not counted (60 s CPU alarm as backstop); nesting deeper than 40 is excluded by the property.",
         "DESIGN.md section 2 C01",
     ),
+    "C02": (
+        "exploration",
+        "recursive document grammar (Hypothesis st.randoms) emitting wikitext together with the expected (word, ancestor-chain) sequence, "
+        "12 languages; oracle: sequence read off the advanced tree equals the expected one in both directions",
+        "Tens of thousands of generated well-formed documents per run; every visible word is a unique token, so loss, duplication, "
+        "re-ordering and wrong attachment are all visible; the expectation comes from the generator's AST, not from the parser.",
+        "Ancestors outside the projection are ignored; style-class order is compared as a multiset.",
+        "DESIGN.md section 2 C02",
+    ),
     "C03": (
         "exploration",
         "exhaustive/sampled call matrix (every magic word, parser function and site alias x 0-3 arguments x 16 shapes) + Hypothesis "
@@ -58,6 +67,16 @@ CHECKS = {
         "evidence lists which passes actually changed a tree so that unreached passes are visible.",
         "Passes that only set attributes are not visible in the 'changed' statistics (structural hash); rtl-only passes are not switched on.",
         "DESIGN.md section 2 C06",
+    ),
+    "C07": (
+        "exploration",
+        "same grammar restricted to ordinary content; metamorphic oracle: (word, section, item nesting, reference) placement before "
+        "clean_all() == after; 2x2+ tables stay tables; failures minimised by line-based ddmin",
+        "The placement sequence is read off the same tree before and after the full cleaning sequence on tens of thousands of generated "
+        "documents per run.",
+        "At most two nested tables per table (the cleaner's documented layout-table heuristic is outside ordinary content); restructuring "
+        "invisible to the projection is allowed.",
+        "DESIGN.md section 2 C07",
     ),
     "C09": (
         "exploration",
